@@ -271,6 +271,12 @@ func (c *FnCtx) slice(x *ssa.Slice) {
 		o := c.safetyOb("slice", x.Pos(), "slice", stableName(x.X)+"[:]")
 		c.assert(o, and(app("<=", "0", lo), app("<=", lo, hi), app("<=", hi, mx), app("<=", mx, app("s-cap", s))))
 		c.def(x, app("mk-slice", app("s-ref", s), plus(app("s-off", s), lo), minus(hi, lo), minus(mx, lo)))
+		if lo != "0" {
+			// element j of the sub-slice is element lo+j of the original: lets quantified facts stated
+			// over one view be used through the other (a consequence of at(o,i) = o+i, not an assumption)
+			c.assume(fmt.Sprintf("(forall ((q$j Int)) (! (= (at %s q$j) (at %s (+ %s q$j))) :pattern ((at %s q$j))))",
+				app("s-off", c.vals[x]), app("s-off", s), lo, app("s-off", c.vals[x])))
+		}
 	case *types.Basic:
 		s := c.v(x.X)
 		lo := opt(x.Low, "0")
